@@ -320,6 +320,8 @@ def field_array(value: bytes) -> typing.Tuple[int, common.FieldArray]:
         offset = 4
         data = []
         field_array_end = offset + length
+        if field_array_end > len(value):
+            raise ValueError('Field array length exceeds the data received')
         while offset < field_array_end:
             consumed, result = embedded_value(value[offset:])
             offset += consumed
